@@ -36,6 +36,28 @@ theorem mapM_option {α β : Type} (f : α → Option β) : ∀ (l : List α) (l
         · obtain ⟨c, hc, hfc⟩ := h2 c' hc'
           exact ⟨c, by simp [hc], hfc⟩
 
+theorem mapM_option_fwd {α β : Type} (f : α → Option β) : ∀ (l : List α) (l' : List β), l.mapM f = some l' →
+    ∀ c ∈ l, ∃ c' ∈ l', f c = some c' := by
+  intro l
+  induction l with
+  | nil => intro l' _ c hc; simp at hc
+  | cons x t ih =>
+    intro l' h c hc
+    simp only [List.mapM_cons] at h
+    cases hx : f x with
+    | none => simp [hx] at h
+    | some y =>
+      cases ht : t.mapM f with
+      | none => simp [hx, ht] at h
+      | some t' =>
+        simp [hx, ht] at h
+        subst h
+        simp at hc
+        rcases hc with rfl | hc
+        · exact ⟨y, by simp, hx⟩
+        · obtain ⟨q, hq, hcq⟩ := ih t' ht c hc
+          exact ⟨q, by simp [hq], hcq⟩
+
 theorem writeRows_length (rows : List Row) (upd : List (Nat × Row)) :
     (writeRows rows upd).length = rows.length := by
   induction upd generalizing rows with
